@@ -3,23 +3,28 @@ use crate::storage;
 use acme_common::crypto::{gen_keypair, KeyPair};
 use acme_common::error::Error;
 
-async fn gen_key_pair(cert: &Certificate) -> Result<KeyPair, Error> {
-	let key_pair = gen_keypair(cert.key_type)?;
-	storage::set_keypair(&cert.file_manager, &key_pair).await?;
-	Ok(key_pair)
+fn gen_key_pair(cert: &Certificate) -> Result<KeyPair, Error> {
+	gen_keypair(cert.key_type)
 }
 
 async fn read_key_pair(cert: &Certificate) -> Result<KeyPair, Error> {
 	storage::get_keypair(&cert.file_manager).await
 }
 
-pub async fn get_key_pair(cert: &Certificate) -> Result<KeyPair, Error> {
+/// Returns the key pair to use for the CSR and whether it is a new one. A new key pair is not
+/// stored here: it replaces the previous one only once the matching certificate has been
+/// obtained (see `store_key_pair`).
+pub async fn get_key_pair(cert: &Certificate) -> Result<(KeyPair, bool), Error> {
 	if cert.kp_reuse {
 		match read_key_pair(cert).await {
-			Ok(key_pair) => Ok(key_pair),
-			Err(_) => gen_key_pair(cert).await,
+			Ok(key_pair) => Ok((key_pair, false)),
+			Err(_) => Ok((gen_key_pair(cert)?, true)),
 		}
 	} else {
-		gen_key_pair(cert).await
+		Ok((gen_key_pair(cert)?, true))
 	}
+}
+
+pub async fn store_key_pair(cert: &Certificate, key_pair: &KeyPair) -> Result<(), Error> {
+	storage::set_keypair(&cert.file_manager, key_pair).await
 }
